@@ -63,8 +63,8 @@ func altSpelling(r *vh.Rng) func([]byte) []byte {
 }
 
 var richAlphabet = []rune(`[]{},"\[]{},"\[{}]:ab 1`)
-var safeA = []rune(`[},"\:ab [}, x/<`)  // cannot form any of the four patterns
-var safeB = []rune(`{],"\:ab {], y&>`)  // neither can this
+var safeA = []rune(`[},"\:ab [}, x/<`) // cannot form any of the four patterns
+var safeB = []rune(`{],"\:ab {], y&>`) // neither can this
 var plain = []rune("abcdefXYZ019 _-.:/é€ \n\t\x01<>&'")
 
 type genCfg struct {
@@ -448,8 +448,25 @@ func runC07(r *vh.Rng, n int, w *vh.Writer) {
 	for _, s := range fixedWire {
 		bytesCase([]byte(s), "fixed_wire_text", w)
 	}
+	for _, s := range fixedDocs {
+		if !strings.Contains(s, "datagram") {
+			continue
+		}
+		e2eCase(parseDoc([]byte(s)), []byte(s), false, "fixed_document_end_to_end", w)
+	}
+	e2eCase(parseDoc([]byte(`{"datagram":[]}`)), []byte(`{"datagram":[]}`), true, "fixed_document_end_to_end", w)
+	e2eCase(parseDoc([]byte(`{"datagram":"[{x}],[]"}`)), []byte(`{"datagram":"[{x}],[]"}`), true, "fixed_document_end_to_end", w)
 	for i := 0; i < n; i++ {
 		switch k := r.Intn(100); {
+		case k < 15:
+			d, class := genSpineDoc(r)
+			var in bytes.Buffer
+			if r.Chance(25) {
+				d.render(&in, r, 15, altSpelling(r))
+			} else {
+				d.render(&in, nil, 0, nil)
+			}
+			e2eCase(d, in.Bytes(), r.Bool(), class, w)
 		case k < 62:
 			d, class := genDoc(r)
 			var in bytes.Buffer
